@@ -105,11 +105,14 @@ V: List[Tuple[str, str, str, str, Any, Any, Optional[str]]] = [
     ("C12", "scanner also stops at braces", "breaking", S + "util/template_parser.py", "    QUOTE_OR_PERCENT = (*QUOTE_CHARS, \"%\")", "    QUOTE_OR_PERCENT = (*QUOTE_CHARS, \"%\", \"{\")", "S1"),
     ("C12", "whitespace skip duplicated", "preserving", S + "util/tag_parser.py", "    while not is_at_end():\n        # Skip whitespace\n        take_while(TAG_WHITESPACE)\n", "    while not is_at_end():\n        # Skip whitespace\n        take_while(TAG_WHITESPACE)\n        take_while(TAG_WHITESPACE)\n", None),
     # ---- C13
-    ("C13", "key not escaped", "breaking", S + "attributes.py", "            attr_list.append(conditional_escape(key))", "            attr_list.append(key)", "S1"),
+    ("C13", "bare key appended after the name guard", "preserving", S + "attributes.py", "            attr_list.append(conditional_escape(key))", "            attr_list.append(key)", None),
+    ("C13", "name guard removed", "breaking", S + "attributes.py", "        if _INVALID_ATTR_NAME_RE.search(str(key)):", "        if False and _INVALID_ATTR_NAME_RE.search(str(key)):", "S1"),
     ("C13", "format_html replaced by f-string", "breaking", S + "attributes.py", "            attr_list.append(format_html('{}=\"{}\"', key, value))", "            attr_list.append(f'{key}=\"{value}\"')", "S1"),
     ("C13", "merge order swapped", "breaking", S + "attributes.py", "        final_attrs.update(defaults or {})\n        final_attrs.update(attrs or {})", "        final_attrs.update(attrs or {})\n        final_attrs.update(defaults or {})", "S3"),
     ("C13", "lower() removed from js guard", "breaking", S + "dependencies.py", "    if \"</script\" in content.lower():", "    if \"</script\" in content:", "S4"),
     ("C13", "slot marked not escaped", "breaking", S + "component.py", "                nodelist=used_nodelist,\n                escaped=True,", "                nodelist=used_nodelist,\n                escaped=False,", "S2"),
+    ("C13", "name guard forgets '='", "breaking", S + "attributes.py", "[\\s\\\"'<>/=\\x00]", "[\\s\\\"'<>/\\x00]", "S1"),
+    ("C13", "name guard as character class with \\t\\n spelled out", "preserving", S + "attributes.py", "[\\s\\\"'<>/=\\x00]", "[ \\t\\n\\r\\f\\v\\\"'<>/=\\x00&]", None),
     ("C13", "casefold instead of lower", "preserving", S + "dependencies.py", "    if \"</style\" in content.lower():", "    if \"</style\" in content.casefold():", None),
     # ---- C14
     ("C14", "second gen_id for the attribute", "breaking", S + "component.py", "                component_id=render_id,\n                css_input_hash=css_input_hash,", "                component_id=gen_id(),\n                css_input_hash=css_input_hash,", "S1"),
